@@ -3,7 +3,9 @@ import RoaringModel.Inv
 /-!
 # Well-formedness as `Prop`s (local to the codec family; mirrors `storeWF` / `bitmapWF` of Driver/Core.lean)
 
-Kept in one file so that it can be unified with the shared `Bitmap.WF` library.
+`StoreWF` / `BitmapWF` are the flat forms used inside the codec lemmas; they are proved equivalent to the shared
+`Store.WF` / `Bitmap.WF` of `Inv.lean` (`storeWF_iff`, `bitmapWF_iff`), and every property theorem of the family
+is stated with `Bitmap.WF`.
 -/
 namespace Roaring
 
